@@ -27,7 +27,7 @@ structure Inode where
 structure Cfg where
   maxBytes : Nat
   maxFiles : Nat
-  maxDuration : Nat
+  maxDuration : Int   -- a time.Duration: may be negative (then: a timestamped name, but no rotation by age)
   tsOnly : Bool           -- TimestampOnlyOnRotate
   mode : Nat              -- 0: unset (0600)
   deriving DecidableEq, Repr, Inhabited
@@ -99,7 +99,7 @@ def prune (c : Cfg) (s : St) : St :=
 
 /-- the condition of `rotate()`, over the counters and the elapsed time -/
 def needRotate (c : Cfg) (bytesWritten elapsed : Nat) : Bool :=
-  (bytesWritten ≥ c.maxBytes && c.maxBytes > 0) || (elapsed > c.maxDuration && c.maxDuration > 0)
+  (bytesWritten ≥ c.maxBytes && c.maxBytes > 0) || ((elapsed : Int) > c.maxDuration && c.maxDuration > 0)
 
 inductive Res | ok | errRotate
   deriving DecidableEq, Repr, Inhabited
